@@ -189,6 +189,8 @@ def argclass(case):
 
 
 class CatalogReplayer:
+    variants = (0, 1)      # public call forms exercised per case
+
     def __init__(self, sg, caller=call_op):
         self.sg = sg
         self.caller = caller
@@ -215,7 +217,7 @@ class CatalogReplayer:
         for dtype in dtypes:
             dtype = np.dtype(dtype)
             dn = "f32" if dtype == np.float32 else "f64"
-            for variant in (0, 1):
+            for variant in self.variants:
                 T = self.operands(case, dtype, [False] * K)
                 snaps = [t.data.tobytes() for t in T]
                 try:
